@@ -253,11 +253,32 @@ pub fn worker_main(args: &[String]) {
             });
         }
         index += stride;
+        // A run that ends in a deadlock leaks its coroutines (shuttle cannot unwind them), so a
+        // long-lived worker grows. Hand over to a fresh process before that becomes a problem.
+        if sum.runs % 128 == 0 && index < end && rss_mb() > rss_limit_mb() {
+            std::fs::remove_file(&wal).ok();
+            write_hashes(&prop, &tag, worker_id, &sum);
+            println!("SUMMARY {}", serde_json::to_string(&sum).unwrap());
+            println!("CONTINUE {index}");
+            std::process::exit(0);
+        }
     }
     std::fs::remove_file(&wal).ok();
     write_hashes(&prop, &tag, worker_id, &sum);
     let out = serde_json::to_string(&sum).unwrap();
     println!("SUMMARY {out}");
+}
+
+fn rss_mb() -> u64 {
+    std::fs::read_to_string("/proc/self/statm")
+        .ok()
+        .and_then(|s| s.split_whitespace().nth(1).and_then(|p| p.parse::<u64>().ok()))
+        .map(|pages| pages * 4096 / (1 << 20))
+        .unwrap_or(0)
+}
+
+fn rss_limit_mb() -> u64 {
+    std::env::var("VERIF_RSS_LIMIT_MB").ok().and_then(|s| s.parse().ok()).unwrap_or(1500)
 }
 
 fn hash_file(prop: &str, tag: &str, worker: u64, kind: &str) -> PathBuf {
@@ -388,48 +409,80 @@ pub fn check_main(cfg: CheckCfg) -> i32 {
     let tag = std::process::id().to_string();
     let known = load_known();
     let workers = cfg.workers.max(1).min(cfg.runs.max(1));
-    let mut children = Vec::new();
+    // one thread per worker slot: it runs a worker process over the slot's index slice and, when
+    // the process hands over (memory), continues the slice in a fresh process
+    let mut slots = Vec::new();
     for w in 0..workers {
-        let child = Command::new(&exe)
-            .args([
-                "worker",
-                &cfg.prop,
-                &cfg.verif_seed.to_string(),
-                &w.to_string(),
-                &cfg.runs.to_string(),
-                &workers.to_string(),
-                &w.to_string(),
-                &cfg.min_budget_s.to_string(),
-                &tag,
-            ])
-            .stdout(Stdio::piped())
-            .stderr(Stdio::null())
-            .spawn()
-            .expect("spawn worker");
-        children.push((w, child));
+        let exe = exe.clone();
+        let prop = cfg.prop.clone();
+        let tag = tag.clone();
+        let (verif_seed, runs, min_budget) = (cfg.verif_seed, cfg.runs, cfg.min_budget_s);
+        slots.push(std::thread::spawn(move || {
+            let mut parts: Vec<WorkerSummary> = Vec::new();
+            let mut errors: Vec<String> = Vec::new();
+            let mut crashed: Option<PathBuf> = None;
+            let mut start = w;
+            loop {
+                let out = Command::new(&exe)
+                    .args([
+                        "worker",
+                        &prop,
+                        &verif_seed.to_string(),
+                        &start.to_string(),
+                        &runs.to_string(),
+                        &workers.to_string(),
+                        &w.to_string(),
+                        &min_budget.to_string(),
+                        &tag,
+                    ])
+                    .stdout(Stdio::piped())
+                    .stderr(Stdio::null())
+                    .output();
+                let out = match out {
+                    Ok(o) => o,
+                    Err(e) => {
+                        errors.push(format!("worker {w}: cannot start: {e}"));
+                        break;
+                    }
+                };
+                let stdout = String::from_utf8_lossy(&out.stdout);
+                let summary = stdout.lines().find_map(|l| l.strip_prefix("SUMMARY ")).and_then(|j| serde_json::from_str::<WorkerSummary>(j).ok());
+                match summary {
+                    Some(mut s) => {
+                        read_hashes(&prop, &tag, w, "nontrivial", &mut s.distinct_nontrivial);
+                        read_hashes(&prop, &tag, w, "inter", &mut s.distinct_interleavings);
+                        read_hashes(&prop, &tag, w, "shape", &mut s.distinct_shapes);
+                        parts.push(s);
+                    }
+                    None => {
+                        let wal = replays_dir().join("tmp").join(format!("{prop}-{tag}-w{w}.json"));
+                        if wal.exists() {
+                            crashed = Some(wal);
+                        } else {
+                            errors.push(format!("worker {w} ended ({:?}) without a summary and without a write-ahead file", out.status));
+                        }
+                        break;
+                    }
+                }
+                match stdout.lines().find_map(|l| l.strip_prefix("CONTINUE ")).and_then(|i| i.trim().parse::<u64>().ok()) {
+                    Some(next) => start = next,
+                    None => break,
+                }
+            }
+            (w, parts, errors, crashed)
+        }));
     }
     let mut total = WorkerSummary::default();
     let mut harness_errors: Vec<String> = Vec::new();
     let mut crashed: Vec<(u64, PathBuf)> = Vec::new();
-    for (w, child) in children {
-        let out = child.wait_with_output().expect("wait worker");
-        let stdout = String::from_utf8_lossy(&out.stdout);
-        let summary = stdout.lines().find_map(|l| l.strip_prefix("SUMMARY ")).and_then(|j| serde_json::from_str::<WorkerSummary>(j).ok());
-        match summary {
-            Some(mut s) => {
-                read_hashes(&cfg.prop, &tag, w, "nontrivial", &mut s.distinct_nontrivial);
-                read_hashes(&cfg.prop, &tag, w, "inter", &mut s.distinct_interleavings);
-                read_hashes(&cfg.prop, &tag, w, "shape", &mut s.distinct_shapes);
-                merge(&mut total, s)
-            }
-            None => {
-                let wal = replays_dir().join("tmp").join(format!("{}-{tag}-w{w}.json", cfg.prop));
-                if wal.exists() {
-                    crashed.push((w, wal));
-                } else {
-                    harness_errors.push(format!("worker {w} ended ({:?}) without a summary and without a write-ahead file", out.status));
-                }
-            }
+    for slot in slots {
+        let (w, parts, errors, dead) = slot.join().expect("slot thread");
+        for s in parts {
+            merge(&mut total, s);
+        }
+        harness_errors.extend(errors);
+        if let Some(wal) = dead {
+            crashed.push((w, wal));
         }
     }
     harness_errors.extend(total.harness_errors.clone());
